@@ -1042,6 +1042,16 @@ impl<'a> Visitor<'a, Result<Expr>> for TryIntoExprVisitor<'a> {
             .collect();
         let flat_args = flat_args?;
         let function_name: &str = &function.name.0.iter().join(".").to_lowercase();
+        // The argument of index k, an error when the function is called with too few arguments
+        let arg = |k: usize| -> Result<Expr> {
+            if k < flat_args.len() {
+                Ok(flat_args[k].clone())
+            } else {
+                Err(Error::other(format!(
+                    "{function_name} expects more than {k} argument(s)"
+                )))
+            }
+        };
         let distinct: bool = match &function.args {
             ast::FunctionArguments::List(func_arg_list)
                 if func_arg_list.duplicate_treatment == Some(ast::DuplicateTreatment::Distinct) =>
@@ -1052,79 +1062,69 @@ impl<'a> Visitor<'a, Result<Expr>> for TryIntoExprVisitor<'a> {
         };
         Ok(match function_name {
             // Math Functions
-            "opposite" => Expr::opposite(flat_args[0].clone()),
-            "not" => Expr::not(flat_args[0].clone()),
-            "exp" => Expr::exp(flat_args[0].clone()),
-            "ln" => Expr::ln(flat_args[0].clone()),
+            "opposite" => Expr::opposite(arg(0)?),
+            "not" => Expr::not(arg(0)?),
+            "exp" => Expr::exp(arg(0)?),
+            "ln" => Expr::ln(arg(0)?),
             "log" => {
                 if flat_args.len() == 1 {
-                    Expr::log(flat_args[0].clone())
+                    Expr::log(arg(0)?)
                 } else {
-                    Expr::divide(
-                        Expr::log(flat_args[1].clone()),
-                        Expr::log(flat_args[0].clone()),
-                    )
+                    Expr::divide(Expr::log(arg(1)?), Expr::log(arg(0)?))
                 }
             }
-            "log2" => Expr::divide(Expr::log(Expr::val(2)), Expr::log(flat_args[0].clone())),
-            "log10" => Expr::divide(Expr::log(Expr::val(10)), Expr::log(flat_args[0].clone())),
-            "abs" => Expr::abs(flat_args[0].clone()),
-            "sin" => Expr::sin(flat_args[0].clone()),
-            "cos" => Expr::cos(flat_args[0].clone()),
-            "tan" => Expr::divide(
-                Expr::sin(flat_args[0].clone()),
-                Expr::cos(flat_args[0].clone()),
-            ),
-            "sqrt" => Expr::sqrt(flat_args[0].clone()),
-            "pow" => Expr::pow(flat_args[0].clone(), flat_args[1].clone()),
-            "power" => Expr::pow(flat_args[0].clone(), flat_args[1].clone()),
-            "square" => Expr::pow(flat_args[0].clone(), Expr::val(2)),
-            "md5" => Expr::md5(flat_args[0].clone()),
-            "coalesce" => {
-                let (first, vec) = flat_args.split_first().unwrap();
-                vec.iter()
-                    .fold(first.clone(), |acc, x| Expr::coalesce(acc, x.clone()))
-            }
+            "log2" => Expr::divide(Expr::log(Expr::val(2)), Expr::log(arg(0)?)),
+            "log10" => Expr::divide(Expr::log(Expr::val(10)), Expr::log(arg(0)?)),
+            "abs" => Expr::abs(arg(0)?),
+            "sin" => Expr::sin(arg(0)?),
+            "cos" => Expr::cos(arg(0)?),
+            "tan" => Expr::divide(Expr::sin(arg(0)?), Expr::cos(arg(0)?)),
+            "sqrt" => Expr::sqrt(arg(0)?),
+            "pow" => Expr::pow(arg(0)?, arg(1)?),
+            "power" => Expr::pow(arg(0)?, arg(1)?),
+            "square" => Expr::pow(arg(0)?, Expr::val(2)),
+            "md5" => Expr::md5(arg(0)?),
+            "coalesce" => flat_args
+                .iter()
+                .skip(1)
+                .fold(arg(0)?, |acc, x| Expr::coalesce(acc, x.clone())),
             "ltrim" => self.trim(
-                Ok(flat_args[0].clone()),
+                Ok(arg(0)?),
                 &Some(ast::TrimWhereField::Leading),
-                (flat_args.len() > 1).then(|| Ok(flat_args[1].clone())),
+                (flat_args.len() > 1).then(|| Ok(arg(1)?)),
             )?,
             "rtrim" => self.trim(
-                Ok(flat_args[0].clone()),
+                Ok(arg(0)?),
                 &Some(ast::TrimWhereField::Trailing),
-                (flat_args.len() > 1).then(|| Ok(flat_args[1].clone())),
+                (flat_args.len() > 1).then(|| Ok(arg(1)?)),
             )?,
             "btrim" => self.trim(
-                Ok(flat_args[0].clone()),
+                Ok(arg(0)?),
                 &Some(ast::TrimWhereField::Both),
-                (flat_args.len() > 1).then(|| Ok(flat_args[1].clone())),
+                (flat_args.len() > 1).then(|| Ok(arg(1)?)),
             )?,
             "round" => {
                 let precision = if flat_args.len() > 1 {
-                    flat_args[1].clone()
+                    arg(1)?
                 } else {
                     Expr::val(0)
                 };
-                Expr::round(flat_args[0].clone(), precision)
+                Expr::round(arg(0)?, precision)
             }
             "trunc" | "truncate" => {
                 let precision = if flat_args.len() > 1 {
-                    flat_args[1].clone()
+                    arg(1)?
                 } else {
                     Expr::val(0)
                 };
-                Expr::trunc(flat_args[0].clone(), precision)
+                Expr::trunc(arg(0)?, precision)
             }
-            "sign" => Expr::sign(flat_args[0].clone()),
+            "sign" => Expr::sign(arg(0)?),
             "random" | "rand" => Expr::random(namer::new_id("UNIFORM_SAMPLING")),
             "pi" => Expr::pi(),
-            "degrees" => Expr::multiply(
-                flat_args[0].clone(),
-                Expr::divide(Expr::val(180.), Expr::pi()),
-            ),
+            "degrees" => Expr::multiply(arg(0)?, Expr::divide(Expr::val(180.), Expr::pi())),
             "choose" => Expr::choose(
-                flat_args[0].clone(),
+                arg(0)?,
                 Expr::val(Value::list(
                     flat_args
                         .iter()
@@ -1134,93 +1134,76 @@ impl<'a> Visitor<'a, Result<Expr>> for TryIntoExprVisitor<'a> {
                 )),
             ),
             // String functions
-            "lower" => Expr::lower(flat_args[0].clone()),
-            "upper" => Expr::upper(flat_args[0].clone()),
-            "char_length" => Expr::char_length(flat_args[0].clone()),
+            "lower" => Expr::lower(arg(0)?),
+            "upper" => Expr::upper(arg(0)?),
+            "char_length" => Expr::char_length(arg(0)?),
             "concat" => Expr::concat(flat_args.clone()),
             "substr" => {
                 if flat_args.len() > 2 {
-                    Expr::substr_with_size(
-                        flat_args[0].clone(),
-                        flat_args[1].clone(),
-                        flat_args[2].clone(),
-                    )
+                    Expr::substr_with_size(arg(0)?, arg(1)?, arg(2)?)
                 } else {
-                    Expr::substr(flat_args[0].clone(), flat_args[1].clone())
+                    Expr::substr(arg(0)?, arg(1)?)
                 }
             }
-            "regexp_contains" => Expr::regexp_contains(flat_args[0].clone(), flat_args[1].clone()),
+            "regexp_contains" => Expr::regexp_contains(arg(0)?, arg(1)?),
             "regexp_extract" | "regexp_substr" => {
                 let position = if flat_args.len() > 2 {
-                    flat_args[2].clone()
+                    arg(2)?
                 } else {
                     Expr::val(0)
                 };
                 let occurrence = if flat_args.len() > 3 {
-                    flat_args[3].clone()
+                    arg(3)?
                 } else {
                     Expr::val(1)
                 };
-                Expr::regexp_extract(
-                    flat_args[0].clone(),
-                    flat_args[1].clone(),
-                    position,
-                    occurrence,
-                )
+                Expr::regexp_extract(arg(0)?, arg(1)?, position, occurrence)
             }
-            "regexp_replace" => Expr::regexp_replace(
-                flat_args[0].clone(),
-                flat_args[1].clone(),
-                flat_args[2].clone(),
-            ),
+            "regexp_replace" => Expr::regexp_replace(arg(0)?, arg(1)?, arg(2)?),
             "newid" => Expr::newid(),
-            "encode" => Expr::encode(flat_args[0].clone(), flat_args[1].clone()),
-            "decode" => Expr::decode(flat_args[0].clone(), flat_args[1].clone()),
-            "unhex" | "from_hex" => Expr::unhex(flat_args[0].clone()),
+            "encode" => Expr::encode(arg(0)?, arg(1)?),
+            "decode" => Expr::decode(arg(0)?, arg(1)?),
+            "unhex" | "from_hex" => Expr::unhex(arg(0)?),
             // Date functions
             "current_date" => Expr::current_date(),
             "current_time" => Expr::current_time(),
             "current_timestamp" => Expr::current_timestamp(),
-            "dayname" => Expr::dayname(flat_args[0].clone()),
-            "date_format" => Expr::date_format(flat_args[0].clone(), flat_args[1].clone()),
-            "quarter" => Expr::quarter(flat_args[0].clone()),
-            "datetime_diff" => Expr::datetime_diff(
-                flat_args[0].clone(),
-                flat_args[1].clone(),
-                flat_args[2].clone(),
-            ),
-            "date" => Expr::date(flat_args[0].clone()),
+            "dayname" => Expr::dayname(arg(0)?),
+            "date_format" => Expr::date_format(arg(0)?, arg(1)?),
+            "quarter" => Expr::quarter(arg(0)?),
+            "datetime_diff" => Expr::datetime_diff(arg(0)?, arg(1)?, arg(2)?),
+            "date" => Expr::date(arg(0)?),
             "from_unixtime" => {
                 let format = if flat_args.len() > 1 {
-                    flat_args[1].clone()
+                    arg(1)?
                 } else {
                     Expr::val("%Y-%m-%d %H:%i:%S".to_string())
                 };
-                Expr::from_unixtime(flat_args[0].clone(), format)
+                Expr::from_unixtime(arg(0)?, format)
             }
             "unix_timestamp" => {
                 let arg = if flat_args.len() > 0 {
-                    flat_args[0].clone()
+                    arg(0)?
                 } else {
                     Expr::current_timestamp()
                 };
                 Expr::unix_timestamp(arg)
             }
-            "greatest" => Expr::greatest(flat_args[0].clone(), flat_args[1].clone()),
-            "least" => Expr::least(flat_args[0].clone(), flat_args[1].clone()),
+            "greatest" => Expr::greatest(arg(0)?, arg(1)?),
+            "least" => Expr::least(arg(0)?, arg(1)?),
             // Aggregates
-            "min" => Expr::min(flat_args[0].clone()),
-            "max" => Expr::max(flat_args[0].clone()),
-            "count" if distinct => Expr::count_distinct(flat_args[0].clone()),
-            "count" => Expr::count(flat_args[0].clone()),
-            "avg" if distinct => Expr::mean_distinct(flat_args[0].clone()),
-            "avg" => Expr::mean(flat_args[0].clone()),
-            "sum" if distinct => Expr::sum_distinct(flat_args[0].clone()),
-            "sum" => Expr::sum(flat_args[0].clone()),
-            "variance" if distinct => Expr::var_distinct(flat_args[0].clone()),
-            "variance" => Expr::var(flat_args[0].clone()),
-            "stddev" if distinct => Expr::std_distinct(flat_args[0].clone()),
-            "stddev" => Expr::std(flat_args[0].clone()),
+            "min" => Expr::min(arg(0)?),
+            "max" => Expr::max(arg(0)?),
+            "count" if distinct => Expr::count_distinct(arg(0)?),
+            "count" => Expr::count(arg(0)?),
+            "avg" if distinct => Expr::mean_distinct(arg(0)?),
+            "avg" => Expr::mean(arg(0)?),
+            "sum" if distinct => Expr::sum_distinct(arg(0)?),
+            "sum" => Expr::sum(arg(0)?),
+            "variance" if distinct => Expr::var_distinct(arg(0)?),
+            "variance" => Expr::var(arg(0)?),
+            "stddev" if distinct => Expr::std_distinct(arg(0)?),
+            "stddev" => Expr::std(arg(0)?),
             _ => {
                 return Err(Error::other(format!(
                     "Unsupported function: {function_name}"
